@@ -35,7 +35,7 @@ PROPS = {
     'C07': P('C07', 16000, 1500000, modules=['D128.Props.C07', 'D128.Props.C07b'], kernel=['digits.round', 'parseFormat', 'Decimal.digits_', 'formatArgs.*', 'digits.fmtE', 'digits.fmtF', 'digits.pad', 'Decimal.appendSpecial', 'Decimal.format', 'Decimal.Append', 'Append', 'Format', 'Decimal.String', 'Decimal.MarshalText']),
     'C08': P('C08', 32000, 3000000, modules=['D128.Props.C08', 'D128.Props.C15'] + KERNEL + SPECM, kernel=['RoundingMode.round', 'composeQuantum', 'U128.div10', 'U128.add64']),
     'C09': P('C09', 16000, 1500000, modules=['D128.Props.C09'] + KERNEL + WIDE, kernel=['FromFloat64', 'FromFloat32', 'Decimal.Float64', 'Decimal.Float32', 'FromFloat', 'Decimal.Float', 'U256.lsh', 'U256.rsh', 'U256.div10', 'U256.mul64', 'U128.mul1e38', 'RoundingMode.reduce256'], kernel_n={Q: 4000, T: 400000}),
-    'C10': P('C10', 32000, 3000000, modules=['D128.Props.C10', 'D128.Props.C10b', 'D128.Props.C02Quo'] + KERNEL, kernel=['U128.div10', 'U128.mul64', 'RoundingMode.reduce128', 'RoundingMode.round', 'Decimal.Int64_', 'Decimal.Uint64', 'Decimal.Int32_', 'Decimal.Uint32', 'FromInt', 'FromRat', 'Decimal.Int_', 'Decimal.Rat']),
+    'C10': P('C10', 32000, 3000000, modules=['D128.Props.C10', 'D128.Props.C10b', 'D128.Props.C10c', 'D128.Props.C02Quo'] + KERNEL, kernel=['U128.div10', 'U128.mul64', 'RoundingMode.reduce128', 'RoundingMode.round', 'Decimal.Int64_', 'Decimal.Uint64', 'Decimal.Int32_', 'Decimal.Uint32', 'FromInt', 'FromRat', 'Decimal.Int_', 'Decimal.Rat']),
     'C11': P('C11', 32000, 3000000, modules=['D128.Props.C11', 'D128.Props.C11b'] + KERNEL + SPECM, kernel=['RoundingMode.reduce64', 'RoundingMode.reduce128', 'RoundingMode.round', 'U128.log10']),
     'C12': P('C12', 32000, 3000000, modules=['D128.Props.C12'], kernel=['compose', 'Decimal.decompose', 'Decimal.MarshalBinary', 'Decimal.UnmarshalBinary']),
     'C13': P('C13', 16000, 1500000, modules=['D128.Props.C13', 'D128.Props.C05', 'D128.Props.C05Value', 'D128.Props.C06', 'D128.Props.C06b'] + KERNEL, kernel=['parseNumber', 'Decimal.digits_', 'RoundingMode.reduce128', 'Decimal.MarshalJSON', 'Decimal.UnmarshalJSON', 'digits.fmtE', 'digits.fmtF']),
